@@ -23,6 +23,32 @@ def none_if(v):
     return None if v == -1 else v
 
 
+def noise(par):
+    """Constructions made BEFORE the one under test, so that state kept between constructor calls (class attributes,
+    default arguments, caches) shows up: the sibling with is_extensible flipped, and a rejected call of the same family."""
+    k = par['kind']
+    calls = []
+    if k in ('IPv4', 'IPv6', 'IPctx'):
+        calls = [lambda: me.IPv6(), lambda: me.IPv4(), lambda: me.IPv6(is_extensible=True)] if not par.get('ext') else [lambda: me.IPv6(), lambda: me.IPv4()]
+    elif k == 'Date':
+        calls = [lambda: me.Date(['dd/mm/yyyy', 'dd.mm.yyyy']), lambda: me.Date(['yy-m-d', 'm/d/yyyy', 5])]
+    elif 'Integer' in k:
+        calls = [lambda: make(dict(par, ext=not par['ext'])), lambda: me.Integer(5, 1), lambda: me.Integer(-1, 1)]
+    elif 'Decimal' in k:
+        calls = [lambda: make(dict(par, ext=not par['ext'])), lambda: me.Decimal(0, 9, 0, 1), lambda: me.Decimal(0, 9, 3, 2)]
+    elif k == 'Numeral':
+        calls = [lambda: make(dict(par, ext=not par['ext'])), lambda: me.Numeral(17), lambda: me.Numeral(10, 3, 2)]
+    elif k == 'Word':
+        calls = [lambda: make(dict(par, ext=not par['ext'])), lambda: me.Word(0), lambda: me.Word(3, 2)]
+    elif k in ('WordContains', 'WordStartsWith', 'WordEndsWith'):
+        calls = [lambda: make(dict(par, ext=not par['ext'])), lambda: getattr(me, k)(['zz', 5])]
+    for c in calls:
+        try:
+            c()
+        except Exception:  # noqa: rejected on purpose (or broken: then the construction under test shows it)
+            pass
+
+
 def make(par):
     k = par['kind']
     ext = par['ext']
@@ -98,6 +124,7 @@ def observe_meta(par, text, res, prop):
     k = key_of(par)
     obj = _objs.get(k)
     if obj is None:
+        noise(par)
         try:
             obj = make(par)
         except Exception as e:  # noqa
@@ -122,6 +149,11 @@ def observe_meta(par, text, res, prop):
                 got = obj.is_exact_match(text)
                 if got != want:
                     fails.append(('exact', {'text': text, 'observed': got, 'expected': want, 'emitted': str(obj)[:300]}))
+                elif par['ext'] and par['kind'] in ('IPv4', 'IPv6'):
+                    # the extensible forms carry no assertion at all: glued to a digit they still match
+                    got = (Pregex('7') + obj + '7').is_exact_match('7' + text + '7')
+                    if got != want:
+                        fails.append(('exact', {'text': '7' + text + '7', 'prefix': '7', 'suffix': '7', 'observed': got, 'expected': want, 'emitted': str(obj)[:300]}))
         if res['mspec']:
             got = [(s, e) for _, s, e in obj.get_matches_and_pos(text)]
             exp = [tuple(x) for x in res['matches']]
